@@ -476,9 +476,16 @@ static void dump_edge(void *u, JanetGCObject *blk, int cls, const char *label) {
 }
 static void dump_root(void *u, JanetGCObject *blk, const char *label) {
     (void) u;
-    (void) label;
     int32_t j = node_find(blk);
-    fprintf(dumpf, " %ld", j < 0 ? (long) nnodes : (long) j);
+    /* the root fiber is reached through a typed pointer (janet_mark_fiber), every other root through janet_mark */
+    fprintf(dumpf, " %c%ld", !strcmp(label, "root.root_fiber") ? 'p' : 'v', j < 0 ? (long) nnodes : (long) j);
+}
+
+static void dump_ref(Janet v) {
+    JanetGCObject *b = val_block(v);
+    if (!b) { fputc('-', dumpf); return; }
+    int32_t j = node_find(b);
+    fprintf(dumpf, "%ld", j < 0 ? (long) nnodes : (long) j);
 }
 
 static void dump_graph(void) {
@@ -488,9 +495,26 @@ static void dump_graph(void) {
     for (size_t i = 0; i < nnodes; i++) {
         Node *n = &nodes[i];
         /* id kind flags edges...   flags: m marked, d disabled, t threaded, o opaque ; edges only for nodes the collector or the
-         * oracle visited (the fields of other blocks are never read by anyone) */
+         * oracle visited (the fields of other blocks are never read by anyone).
+         * edge tokens: v<id> through a value, p<id> through a typed pointer; weak containers: one token s:<key>:<value> per slot
+         * (`-` = immediate) */
         fprintf(dumpf, "o %zu %d %s%s%s%s-", i, n->kind, n->marked ? "m" : "", n->disabled ? "d" : "", n->threaded ? "t" : "", n->opaque ? "o" : "");
-        if (n->marked || n->reach) node_edges(n, dump_edge, NULL);
+        if (n->marked || n->reach) {
+            if (n->kind == JANET_MEMORY_ARRAY_WEAK) {
+                JanetArray *a = (JanetArray *) n->p;
+                for (int32_t k = 0; k < a->count; k++) { fputs(" s:", dumpf); dump_ref(a->data[k]); fputs(":-", dumpf); }
+            } else if (n->kind == JANET_MEMORY_TABLE_WEAKK || n->kind == JANET_MEMORY_TABLE_WEAKV || n->kind == JANET_MEMORY_TABLE_WEAKKV) {
+                JanetTable *t = (JanetTable *) n->p;
+                if (t->data)
+                    for (int32_t k = 0; k < t->capacity; k++) {
+                        if (!val_block(t->data[k].key) && !val_block(t->data[k].value)) continue;
+                        fputs(" s:", dumpf); dump_ref(t->data[k].key); fputc(':', dumpf); dump_ref(t->data[k].value);
+                    }
+                if (t->proto) { int32_t j = node_find(t->proto); fprintf(dumpf, " p%ld", j < 0 ? (long) nnodes : (long) j); }
+            } else {
+                node_edges(n, dump_edge, NULL);
+            }
+        }
         fprintf(dumpf, "\n");
     }
     fprintf(dumpf, "roots");
@@ -610,10 +634,34 @@ static void midpoint_hook(void) {
                     }
                 }
             }
+#ifdef JANET_EV
+        /* threaded abstracts are not on the block lists: a survivor is one still registered in janet_vm.threaded_abstracts */
+        for (int32_t i = 0; i < janet_vm.threaded_abstracts.capacity; i++) {
+            JanetKV *kv = janet_vm.threaded_abstracts.data + i;
+            if (janet_checktype(kv->key, JANET_ABSTRACT)) {
+                int32_t j = node_find(&janet_abstract_head(janet_unwrap_abstract(kv->key))->gc);
+                if (j >= 0 && nodes[j].threaded) {
+                    if (!nodes[j].marked) {
+                        bad++;
+                        n_findings++;
+                        rep("FINDING unvisited-threaded-abstract-survived-sweep collection=%ld\n", n_collect);
+                    }
+                    nodes[j].reach = 2;
+                }
+            }
+        }
+#endif
         long should = 0;
         for (size_t i = 0; i < nnodes; i++) {
             Node *n = &nodes[i];
-            if (n->threaded) continue;
+            if (n->threaded) {
+                if (n->marked && n->reach != 2) {
+                    bad++;
+                    n_findings++;
+                    rep("FINDING visited-threaded-abstract-dropped-by-sweep collection=%ld\n", n_collect);
+                }
+                continue;
+            }
             if (n->marked || n->disabled) {
                 should++;
                 if (n->reach != 2) {
